@@ -7,12 +7,32 @@ from rl4co.utils import decoding as D
 
 
 def _l(t):
-    return [("-inf" if (isinstance(x, float) and math.isinf(x) and x < 0) else ("inf" if isinstance(x, float) and math.isinf(x) else x)) for x in t.reshape(-1).tolist()]
+    return [[("-inf" if (isinstance(x, float) and math.isinf(x) and x < 0) else ("inf" if isinstance(x, float) and math.isinf(x) else x)) for x in row] for row in t.tolist()]
 
 
 def run(p):
-    logits = torch.tensor([p["logits"]], dtype=torch.float32)
-    mask = torch.tensor([p["mask"]], dtype=torch.bool)
+    """the solver's softmax is a contract stub, so its model fixes the ordering of the logits but not the exact
+    probabilities: besides the model's own values a few re-scalings of the same instance are executed (same ordering
+    and ties, other temperature / top_p / logit spread); the parent reports the first that shows the violation"""
+    outs = [run_one(p)]
+    for temp in (0.25, 0.5, 2.0, 4.0):
+        for tp in ((0.3, 0.6, 0.85) if 0 < p["top_p"] < 1 else (p["top_p"],)):
+            for spread in (1.0, 3.0):
+                q = dict(p, temperature=temp, top_p=tp)
+                lg = p["logits"] if isinstance(p["logits"][0], list) else [p["logits"]]
+                q["logits"] = [[x * spread for x in row] for row in lg]
+                q["mask"] = p["mask"] if isinstance(p["mask"][0], list) else [p["mask"]]
+                outs.append(dict(run_one(q), params=q))
+    outs[0]["variants"] = outs[1:]
+    return outs[0]
+
+
+def run_one(p):
+    lg, mk = p["logits"], p["mask"]
+    if lg and not isinstance(lg[0], list):
+        lg, mk = [lg], [mk]
+    logits = torch.tensor(lg, dtype=torch.float32)
+    mask = torch.tensor(mk, dtype=torch.bool)
     out = {}
     try:
         kw = dict(temperature=p["temperature"], tanh_clipping=p["tanh_clipping"])
@@ -23,18 +43,18 @@ def run(p):
             lps = D.process_logits(logits.clone() + p["shift"], mask.clone(), top_p=p["top_p"], top_k=p["top_k"], **kw)
             out["shifted"] = _l(lps)
         try:
-            out["greedy"] = int(D.DecodingStrategy.greedy(lp, mask)[0])
+            out["greedy"] = D.DecodingStrategy.greedy(lp, mask).tolist()
         except AssertionError as e:
             out["greedy_assert"] = str(e)
         torch.manual_seed(0)
         samples = []
         for _ in range(64):
             try:
-                samples.append(int(D.DecodingStrategy.sampling(lp, mask)[0]))
+                samples.append(D.DecodingStrategy.sampling(lp, mask).tolist())
             except Exception as e:  # noqa: BLE001
                 out["sampling_error"] = f"{type(e).__name__}: {e}"
                 break
-        out["samples"] = sorted(set(samples))
+        out["samples"] = [sorted({smp[b] for smp in samples}) for b in range(logits.shape[0])] if samples else []
     except Exception as e:  # noqa: BLE001
         out["error"] = f"{type(e).__name__}: {e}"
     return out
